@@ -107,6 +107,9 @@ class L2BallIndicator(Functional):
         of the :math:`\ell_2` ball with radius :math:`r`
 
         .. math::
-            \mathrm{prox}_{\lambda I}(\mb{v}) = r \frac{\mb{v}}{\norm{\mb{v}}_2}\;.
+            \mathrm{prox}_{\lambda I}(\mb{v}) = \begin{cases}
+            \mb{v}  & \text{ if } \norm{\mb{v}}_2 \leq r \\
+            r \frac{\mb{v}}{\norm{\mb{v}}_2} & \text{ otherwise} \;.
+            \end{cases}
         """
-        return self.radius * v / norm(v)
+        return v * (self.radius / snp.maximum(norm(v), self.radius))
